@@ -205,6 +205,7 @@ def check_other_writers(ck, P):
                 ck.unknown("G-RANGE", fn, "setter analysed", str(e))
                 continue
             R.check_range_guard(ck, it, env.facts, it.raises, {name: (v, lo, hi)}, fn)
+            R.check_refusal_atomic(ck, it, fn, rule="G-RANGE")
     ck.floor("apid/seq_count/data_len setters", n, 7)
     # raw storage written outside the validating setters
     storage = {}
